@@ -5,33 +5,38 @@
 
    and [sI] gives reach_count s <= s_refs s ([G_sound]).  The bare VM runs one script context (s_outer = []). *)
 From NG Require Import VM.Model VM.LimitsData VM.Reach VM.Total VM.RefsFlatStep VM.RefsInv VM.RefsMoves VM.RefsData VM.RefsOps
-  VM.RefsStale VM.RefsComp VM.RefsShape VM.RefsExact VM.RefsExactOps.
+  VM.RefsStale VM.RefsComp VM.RefsShape VM.RefsExact VM.RefsExactOps VM.Loader.
 Open Scope Z_scope.
 
 Definition fr_roots (fs : list frame) : list item := flat_map frame_roots fs.
+(* what the suspended script contexts hold (VM/Reach.v: a stack shared with the script above is counted once) *)
+Definition oroots (s : state) : list item := outer_roots (sc_shared (s_sc s)) (s_outer s).
+Definition outer_progs_ok (o : list (script * (frame * list frame))) : Prop :=
+  Forall (fun x => nonneg_bytes (sc_prog (fst x))) o.
 
-(* [sIk Lk s]: the invariant with the leaked counts Lk made explicit (Lk = [] : the counter is exact up to cycles) *)
+(* [sIk Lk s]: the invariant with the leaked counts Lk made explicit (Lk = [] : the counter is exact up to cycles);
+   any number of script contexts *)
 Record sIk (Lk : list item) (s : state) : Prop := mksIk {
-  si_outer : s_outer s = [];
   si_prog : nonneg_bytes (sc_prog (s_sc s));
+  si_outer : outer_progs_ok (s_outer s);
   si_exc : match s_exc s with Some e => valid (s_heap s) e | None => True end;
-  si_d : dI0 (fr_roots (s_frames s) ++ Lk) (view s)
+  si_d : dI0 (fr_roots (s_frames s) ++ oroots s ++ Lk) (view s)
 }.
 Definition sI (s : state) : Prop := exists Lk, sIk Lk s.
 
 Ltac meq_app := split; [intros ?l; repeat rewrite ?occ_app, ?occ_cons, ?occ_nil; lia
                        |repeat rewrite ?zlen_app, ?zlen_cons', ?zlen_nil; lia].
 Ltac in_app := let a := fresh "a" in intros a; repeat (rewrite ?in_app_iff; simpl); tauto.
+Ltac unroots := unfold roots, oroots, droots_l, slots_items, fr_roots, frame_roots, view;
+                cbn [d_es d_local d_args d_static].
 
 (* ---------- what the invariant is for ---------- *)
 Theorem sIk_sound Lk s : sIk Lk s -> reach_count s <= s_refs s.
 Proof.
-  intros [O _ _ (U & [Hgi _ _])]. destruct Hgi as [Hg _ _ _].
+  intros [_ _ _ (U & [Hgi _ _])]. destruct Hgi as [Hg _ _ _].
   unfold reach_count. eapply G_sound; [exact Hg| |].
-  - unfold roots. rewrite O. cbn [outer_roots]. unfold droots_l, slots_items, fr_roots, frame_roots, view.
-    cbn [d_es d_local d_args d_static]. in_app.
-  - unfold roots. rewrite O. cbn [outer_roots]. unfold droots_l, slots_items, fr_roots, frame_roots, view.
-    cbn [d_es d_local d_args d_static]. pose proof (zlen_nonneg Lk). repeat rewrite ?zlen_app, ?zlen_nil. lia.
+  - unroots. in_app.
+  - unroots. pose proof (zlen_nonneg Lk). repeat rewrite ?zlen_app, ?zlen_nil. lia.
 Qed.
 
 Theorem sI_sound s : sI s -> reach_count s <= s_refs s.
@@ -40,14 +45,11 @@ Proof. intros [Lk H]. eapply sIk_sound; eauto. Qed.
 (* without leaked counts and on an acyclic heap the counter is exact *)
 Theorem sIk_exact s : sIk [] s -> acyc (s_heap s) -> reach_count s = s_refs s.
 Proof.
-  intros [O _ _ (U & [Hgi _ _])] Ac. destruct Hgi as [Hg _ _ _].
+  intros [_ _ _ (U & [Hgi _ _])] Ac. destruct Hgi as [Hg _ _ _].
   unfold reach_count. eapply G_exact; [exact Hg|exact Ac| | |].
-  - unfold roots. rewrite O. cbn [outer_roots]. unfold droots_l, slots_items, fr_roots, frame_roots, view.
-    cbn [d_es d_local d_args d_static]. in_app.
-  - unfold roots. rewrite O. cbn [outer_roots]. unfold droots_l, slots_items, fr_roots, frame_roots, view.
-    cbn [d_es d_local d_args d_static]. in_app.
-  - unfold roots. rewrite O. cbn [outer_roots]. unfold droots_l, slots_items, fr_roots, frame_roots, view.
-    cbn [d_es d_local d_args d_static]. repeat rewrite ?zlen_app, ?zlen_nil. lia.
+  - unroots. in_app.
+  - unroots. in_app.
+  - unroots. repeat rewrite ?zlen_app, ?zlen_nil. lia.
 Qed.
 
 (* ---------- small tools ---------- *)
@@ -57,25 +59,25 @@ Proof. destruct d; reflexivity. Qed.
 Lemma dI0_meq E E' d : dI0 E d -> meq E E' -> (forall a, In a E' -> In a E) -> dI0 E' d.
 Proof. intros [U H] M S. exists U. eapply dI_E_meq; eauto. Qed.
 
-Lemma sI_unview s d Lk0 Lk : sIk Lk0 s -> shp (view s) d -> dI0 (fr_roots (s_frames s) ++ Lk) d -> sIk Lk (unview s d).
+Lemma sI_unview s d Lk0 Lk : sIk Lk0 s -> shp (view s) d -> dI0 (fr_roots (s_frames s) ++ oroots s ++ Lk) d -> sIk Lk (unview s d).
 Proof.
-  intros [O P X _] S H. constructor.
-  - exact O.
+  intros [P O X _] S H. constructor.
   - exact P.
+  - exact O.
   - change (s_exc (unview s d)) with (s_exc s). change (s_heap (unview s d)) with (d_heap d).
     destruct (s_exc s); [|exact I]. eapply valid_shape; [exact S|exact X].
   - rewrite view_unview. exact H.
 Qed.
 
 Lemma sI_same_data Lk s s' :
-  sIk Lk s -> s_outer s' = s_outer s -> sc_prog (s_sc s') = sc_prog (s_sc s) -> s_exc s' = s_exc s -> s_heap s' = s_heap s ->
-  s_frames s' = s_frames s -> view s' = view s -> sIk Lk s'.
+  sIk Lk s -> s_outer s' = s_outer s -> sc_prog (s_sc s') = sc_prog (s_sc s) -> sc_shared (s_sc s') = sc_shared (s_sc s) ->
+  s_exc s' = s_exc s -> s_heap s' = s_heap s -> s_frames s' = s_frames s -> view s' = view s -> sIk Lk s'.
 Proof.
-  intros [O P X D] E1 E2 E3 E4 E5 E6. constructor.
-  - rewrite E1; exact O.
+  intros [P O X D] E1 E2 Es E3 E4 E5 E6. constructor.
   - rewrite E2; exact P.
+  - rewrite E1; exact O.
   - rewrite E3, E4; exact X.
-  - rewrite E5, E6; exact D.
+  - unfold oroots. rewrite E5, E6, E1, Es. exact D.
 Qed.
 
 Lemma jump_sI Lk s pos s' : sIk Lk s -> jump s pos = Some s' -> sIk Lk s'.
@@ -88,15 +90,31 @@ Proof. intros H. eapply sI_same_data; [exact H|reflexivity..]. Qed.
 (* ---------- CALL ---------- *)
 Lemma call_sI Lk s pos s' : sIk Lk s -> call s pos = Some s' -> sIk Lk s'.
 Proof.
-  unfold call. repeat case_if; try discriminate. intros [O P X (U & H)] Q; inv Q. constructor; cbn [s_outer s_sc s_exc s_heap s_frames].
-  - exact O.
+  unfold call. repeat case_if; try discriminate. intros [P O X (U & H)] Q; inv Q. constructor; cbn [s_outer s_sc s_exc s_heap s_frames].
   - exact P.
+  - exact O.
   - exact X.
   - exists U. eapply dI_rearr; try exact H; try reflexivity; try apply meq_refl; try tauto.
-    + unfold droots_l, slots_items, fr_roots, frame_roots, view. cbn [flat_map d_es d_local d_args d_static f_local f_args s_fr s_sc slot_items].
+    + unfold oroots, droots_l, slots_items, fr_roots, view. cbn [flat_map d_es d_local d_args d_static f_local f_args s_fr s_sc s_outer slot_items]. unfold frame_roots.
       meq_app.
-    + unfold droots_l, slots_items, fr_roots, frame_roots, view. cbn [flat_map d_es d_local d_args d_static f_local f_args s_fr s_sc slot_items].
+    + unfold oroots, droots_l, slots_items, fr_roots, view. cbn [flat_map d_es d_local d_args d_static f_local f_args s_fr s_sc s_outer slot_items]. unfold frame_roots.
       in_app.
+Qed.
+
+(* ---------- loading another script on top (contract call) ---------- *)
+Lemma load_script_sI Lk s prog sid rv : sIk Lk s -> nonneg_bytes prog -> sIk Lk (load_script s prog sid rv).
+Proof.
+  intros [P O X (U & H)] NP. unfold load_script. constructor; cbn [s_outer s_sc s_exc s_heap s_frames sc_prog].
+  - exact NP.
+  - constructor; [exact P|exact O].
+  - exact X.
+  - exists U. eapply dI_rearr; try exact H; try reflexivity; try apply meq_refl; try tauto.
+    + unfold oroots, droots_l, slots_items, fr_roots, frame_roots, view.
+      cbn [flat_map d_es d_local d_args d_static f_local f_args s_fr s_sc s_outer s_frames slot_items sc_shared sc_es sc_static empty_frame outer_roots app].
+      unfold frame_roots. destruct (sc_es (s_sc s)) eqn:Es; destruct (rv =? -1); cbn [andb app]; meq_app.
+    + unfold oroots, droots_l, slots_items, fr_roots, frame_roots, view.
+      cbn [flat_map d_es d_local d_args d_static f_local f_args s_fr s_sc s_outer s_frames slot_items sc_shared sc_es sc_static empty_frame outer_roots app].
+      unfold frame_roots. destruct (sc_es (s_sc s)) eqn:Es; destruct (rv =? -1); cbn [andb app]; in_app.
 Qed.
 
 (* ---------- unloading ---------- *)
@@ -106,70 +124,158 @@ Proof.
   apply rc_only_shape. unfold ref_remove_list. apply ref_remove_wl_rc_only.
 Qed.
 
+Definition dclear (sl : option (list item)) (d : dstate) : dstate :=
+  set_mem d (fst (clear_slot sl (d_heap d, d_refs d))) (snd (clear_slot sl (d_heap d, d_refs d))).
+Fixpoint dclears (sls : list (option (list item))) (d : dstate) : dstate :=
+  match sls with [] => d | sl :: t => dclears t (dclear sl d) end.
+Lemma dclear_pair sl d : (d_heap (dclear sl d), d_refs (dclear sl d)) = clear_slot sl (d_heap d, d_refs d).
+Proof. unfold dclear. destruct (clear_slot sl (d_heap d, d_refs d)). reflexivity. Qed.
+Lemma dclears_pair : forall sls d,
+  (d_heap (dclears sls d), d_refs (dclears sls d)) = fold_left (fun hr sl => clear_slot sl hr) sls (d_heap d, d_refs d).
+Proof. induction sls as [|sl t IH]; intros d; simpl; [reflexivity|]. rewrite IH, dclear_pair. reflexivity. Qed.
+Lemma dclears_roots : forall sls d, droots_l (dclears sls d) = droots_l d.
+Proof. induction sls as [|sl t IH]; intros d; simpl; [reflexivity|]. rewrite IH. reflexivity. Qed.
+
 Lemma dI_clear_slot sl E U d :
-  dI (slot_items sl ++ E) [] U d ->
-  exists U', dI E [] U' (set_mem d (fst (clear_slot sl (d_heap d, d_refs d))) (snd (clear_slot sl (d_heap d, d_refs d)))).
+  dI (slot_items sl ++ E) [] U d -> exists U', dI E [] U' (dclear sl d).
 Proof.
-  destruct sl as [its|]; cbn [clear_slot slot_items fst snd]; intros H.
+  unfold dclear. destruct sl as [its|]; cbn [clear_slot slot_items fst snd]; intros H.
   - apply dI_remove_list in H. unfold d_remove_list in H. exists (its ++ U).
     destruct (ref_remove_list (d_heap d) (d_refs d) its) as [h' r']. exact H.
   - exists U. eapply dI_rearr; try exact H; try reflexivity; try apply meq_refl; try tauto.
 Qed.
+Lemma dclear_shape sl d : same_shape (d_heap d) (d_heap (dclear sl d)).
+Proof. unfold dclear. cbn [set_mem d_heap]. apply clear_slot_shape. Qed.
+Lemma dI_clears : forall sls E U d,
+  dI (flat_map slot_items sls ++ E) [] U d ->
+  exists U', dI E [] U' (dclears sls d) /\ same_shape (d_heap d) (d_heap (dclears sls d)).
+Proof.
+  induction sls as [|sl t IH]; intros E U d H; simpl in *.
+  - exists U. split; [exact H|apply same_shape_refl].
+  - rewrite <- app_assoc in H. destruct (dI_clear_slot _ _ _ _ H) as (U1 & H1).
+    destruct (IH _ _ _ H1) as (U2 & H2 & S2). exists U2. split; [exact H2|].
+    eapply same_shape_trans; [apply dclear_shape|exact S2].
+Qed.
 
-(* the data state with the slots of the executing context emptied, their content held in E *)
+(* unloading a context: the slots that go are cleared (un-counted), the rest is re-arranged; also when the script is left
+   (static slot released, RET moves the stack, an exception un-counts the abandoned stack) *)
 Lemma unload_sI Lk b s : sIk Lk s -> match unload b s with UNext s' => sIk Lk s' | ULast s' => sIk Lk s' | UFault => True end.
 Proof.
-  intros [O P X (U & H)]. unfold unload. rewrite O.
-  set (d0 := mkD (sc_es (s_sc s)) None None (sc_static (s_sc s)) (s_heap s) (s_refs s)).
+  intros [P O X (U & H)]. unfold unload.
+  set (d1 := mkD [] None None None (s_heap s) (s_refs s)).
+  assert (Exc : forall sls, match s_exc s with
+                            | Some e => valid (fst (fold_left (fun hr sl => clear_slot sl hr) sls (s_heap s, s_refs s))) e
+                            | None => True end).
+  { intros sls. destruct (s_exc s); [|exact I]. eapply valid_shape; [|exact X].
+    clear. generalize (s_heap s) (s_refs s). induction sls as [|sl t IH]; intros h r; simpl; [apply same_shape_refl|].
+    destruct (clear_slot sl (h, r)) as [h1 r1] eqn:E. eapply same_shape_trans; [|apply IH].
+    pose proof (clear_slot_shape sl h r) as S. rewrite E in S. exact S. }
   destruct (s_frames s) as [|f' fs] eqn:Ef.
-  - (* last context *)
-    set (d1 := mkD (sc_es (s_sc s)) None None None (s_heap s) (s_refs s)).
-    assert (H1 : dI (slot_items (f_local (s_fr s)) ++ slot_items (f_args (s_fr s)) ++ slot_items (sc_static (s_sc s)) ++ Lk) [] U d1).
-    { eapply dI_rearr; try exact H; try reflexivity; try apply meq_refl; try tauto.
-      - unfold droots_l, slots_items, fr_roots, view, d1. cbn [flat_map d_es d_local d_args d_static slot_items app]. meq_app.
-      - unfold droots_l, slots_items, fr_roots, view, d1. cbn [flat_map d_es d_local d_args d_static slot_items app]. in_app. }
-    destruct (dI_clear_slot _ _ _ _ H1) as (U2 & H2). cbn [d_heap d_refs d1] in H2.
-    set (hr1 := clear_slot (f_local (s_fr s)) (s_heap s, s_refs s)) in *.
-    destruct (dI_clear_slot _ _ _ _ H2) as (U3 & H3). cbn [d_heap d_refs set_mem] in H3.
-    assert (Q1 : (fst hr1, snd hr1) = hr1) by (destruct hr1; reflexivity). rewrite Q1 in H3.
-    set (hr2 := clear_slot (f_args (s_fr s)) hr1) in *.
-    destruct (dI_clear_slot _ _ _ _ H3) as (U4 & H4). cbn [d_heap d_refs set_mem] in H4.
-    assert (Q2 : (fst hr2, snd hr2) = hr2) by (destruct hr2; reflexivity). rewrite Q2 in H4.
-    set (hr3 := clear_slot (sc_static (s_sc s)) hr2) in *.
-    constructor; cbn [s_outer s_sc s_exc s_heap s_frames sc_prog].
-    + reflexivity.
-    + exact P.
-    + destruct (s_exc s); [|exact I].
-      assert (S : same_shape (s_heap s) (fst hr3)).
-      { eapply same_shape_trans; [apply (clear_slot_shape (f_local (s_fr s)) (s_heap s) (s_refs s))|]. fold hr1.
-        eapply same_shape_trans; [apply (clear_slot_shape (f_args (s_fr s)) (fst hr1) (snd hr1))|]. rewrite Q1. fold hr2.
-        pose proof (clear_slot_shape (sc_static (s_sc s)) (fst hr2) (snd hr2)) as S3. rewrite Q2 in S3. exact S3. }
-      eapply valid_shape; [exact S|exact X].
-    + exists U4. exact H4.
+  - destruct (s_outer s) as [|[sc' [f' fs']] o'] eqn:Eo.
+    + (* the last context of the last script *)
+      set (sls := [f_local (s_fr s); f_args (s_fr s); sc_static (s_sc s)]).
+      assert (H1 : dI (flat_map slot_items sls ++ (sc_es (s_sc s) ++ Lk)) [] U d1).
+      { eapply dI_rearr; try exact H; try reflexivity; try apply meq_refl; try tauto.
+        - unfold oroots. rewrite Eo. unfold droots_l, slots_items, fr_roots, view, d1, sls. cbn [outer_roots flat_map d_es d_local d_args d_static slot_items app]. unfold frame_roots. meq_app.
+        - unfold oroots. rewrite Eo. unfold droots_l, slots_items, fr_roots, view, d1, sls. cbn [outer_roots flat_map d_es d_local d_args d_static slot_items app]. unfold frame_roots. in_app. }
+      destruct (dI_clears _ _ _ _ H1) as (U2 & H2 & S2).
+      pose proof (dclears_pair sls d1) as Pr. cbn [fold_left sls d1 d_heap d_refs] in Pr.
+      pose proof (Exc sls) as Xe. cbn [fold_left sls] in Xe.
+      match goal with |- sIk Lk (mkState _ _ _ _ (fst ?hr) (snd ?hr) _ _ _ _) => set (HR := hr) in * end.
+      assert (Eh : fst HR = d_heap (dclears sls d1)) by (rewrite <- Pr; reflexivity).
+      assert (Er : snd HR = d_refs (dclears sls d1)) by (rewrite <- Pr; reflexivity).
+      constructor; cbn [s_outer s_sc s_exc s_heap s_frames sc_prog].
+      * exact P.
+      * constructor.
+      * exact Xe.
+      * exists U2. eapply dI_rearr; try exact H2; try (symmetry; assumption); try apply meq_refl; try tauto.
+        -- rewrite dclears_roots. unfold oroots, droots_l, slots_items, fr_roots, view, d1. cbn [outer_roots flat_map d_es d_local d_args d_static slot_items app s_outer s_sc s_fr s_frames sc_es sc_static f_local f_args]. unfold frame_roots. meq_app.
+        -- rewrite dclears_roots. unfold oroots, droots_l, slots_items, fr_roots, view, d1. cbn [outer_roots flat_map d_es d_local d_args d_static slot_items app s_outer s_sc s_fr s_frames sc_es sc_static f_local f_args]. unfold frame_roots. in_app.
+    + (* the last context of a script that was loaded on top of another one *)
+      inversion O as [|? ? P' O']; subst.
+      set (below := slot_items (sc_static sc') ++ frame_roots f' ++ fr_roots fs' ++ outer_roots (sc_shared sc') o').
+      destruct (sc_shared (s_sc s)) eqn:Sh.
+      * (* the stack is the one of the script below *)
+        set (sls := [f_local (s_fr s); f_args (s_fr s); sc_static (s_sc s)]).
+        assert (H1 : dI (flat_map slot_items sls ++ (sc_es (s_sc s) ++ below ++ Lk)) [] U d1).
+        { eapply dI_rearr; try exact H; try reflexivity; try apply meq_refl; try tauto.
+          - unfold oroots. rewrite Eo, Sh. unfold below, droots_l, slots_items, fr_roots, view, d1, sls. cbn [outer_roots flat_map d_es d_local d_args d_static slot_items app fst]. unfold frame_roots. meq_app.
+          - unfold oroots. rewrite Eo, Sh. unfold below, droots_l, slots_items, fr_roots, view, d1, sls. cbn [outer_roots flat_map d_es d_local d_args d_static slot_items app fst]. unfold frame_roots. in_app. }
+        destruct (dI_clears _ _ _ _ H1) as (U2 & H2 & S2).
+        pose proof (dclears_pair sls d1) as Pr. cbn [fold_left sls d1 d_heap d_refs] in Pr.
+        pose proof (Exc sls) as Xe. cbn [fold_left sls] in Xe.
+        rewrite andb_false_r. cbv zeta.
+        match goal with |- sIk Lk (mkState _ _ _ _ (fst ?hr) (snd ?hr) _ _ _ _) => set (HR := hr) in * end.
+        assert (Eh : fst HR = d_heap (dclears sls d1)) by (rewrite <- Pr; reflexivity).
+        assert (Er : snd HR = d_refs (dclears sls d1)) by (rewrite <- Pr; reflexivity).
+        constructor; cbn [s_outer s_sc s_exc s_heap s_frames sc_prog].
+        -- exact P'.
+        -- exact O'.
+        -- exact Xe.
+        -- exists U2. eapply dI_rearr; try exact H2; try (symmetry; assumption); try apply meq_refl; try tauto.
+           ++ rewrite dclears_roots. unfold below, oroots, droots_l, slots_items, fr_roots, view, d1. cbn [outer_roots flat_map d_es d_local d_args d_static slot_items app s_outer s_sc s_fr s_frames sc_es sc_static sc_shared f_local f_args]. unfold frame_roots. meq_app.
+           ++ rewrite dclears_roots. unfold below, oroots, droots_l, slots_items, fr_roots, view, d1. cbn [outer_roots flat_map d_es d_local d_args d_static slot_items app s_outer s_sc s_fr s_frames sc_es sc_static sc_shared f_local f_args]. unfold frame_roots. in_app.
+      * destruct b.
+        -- (* RET: the results move onto the stack below *)
+           destruct ((0 <=? f_ret (s_fr s)) && negb (zlen (sc_es (s_sc s)) =? f_ret (s_fr s))); [exact I|].
+           set (sls := [f_local (s_fr s); f_args (s_fr s); sc_static (s_sc s)]).
+           assert (H1 : dI (flat_map slot_items sls ++ (sc_es (s_sc s) ++ sc_es sc' ++ below ++ Lk)) [] U d1).
+           { eapply dI_rearr; try exact H; try reflexivity; try apply meq_refl; try tauto.
+             - unfold oroots. rewrite Eo, Sh. unfold below, droots_l, slots_items, fr_roots, view, d1, sls. cbn [outer_roots flat_map d_es d_local d_args d_static slot_items app fst]. unfold frame_roots. meq_app.
+             - unfold oroots. rewrite Eo, Sh. unfold below, droots_l, slots_items, fr_roots, view, d1, sls. cbn [outer_roots flat_map d_es d_local d_args d_static slot_items app fst]. unfold frame_roots. in_app. }
+           destruct (dI_clears _ _ _ _ H1) as (U2 & H2 & S2).
+           pose proof (dclears_pair sls d1) as Pr. cbn [fold_left sls d1 d_heap d_refs] in Pr.
+           pose proof (Exc sls) as Xe. cbn [fold_left sls] in Xe.
+           cbn [negb andb]. cbv zeta.
+           match goal with |- sIk Lk (mkState _ _ _ _ (fst ?hr) (snd ?hr) _ _ _ _) => set (HR := hr) in * end.
+           assert (Eh : fst HR = d_heap (dclears sls d1)) by (rewrite <- Pr; reflexivity).
+           assert (Er : snd HR = d_refs (dclears sls d1)) by (rewrite <- Pr; reflexivity).
+           constructor; cbn [s_outer s_sc s_exc s_heap s_frames sc_prog].
+           ++ exact P'.
+           ++ exact O'.
+           ++ exact Xe.
+           ++ exists U2. eapply dI_rearr; try exact H2; try (symmetry; assumption); try apply meq_refl; try tauto.
+              ** rewrite dclears_roots. unfold below, oroots, droots_l, slots_items, fr_roots, view, d1. cbn [outer_roots flat_map d_es d_local d_args d_static slot_items app s_outer s_sc s_fr s_frames sc_es sc_static sc_shared f_local f_args]. unfold frame_roots. meq_app.
+              ** rewrite dclears_roots. unfold below, oroots, droots_l, slots_items, fr_roots, view, d1. cbn [outer_roots flat_map d_es d_local d_args d_static slot_items app s_outer s_sc s_fr s_frames sc_es sc_static sc_shared f_local f_args]. unfold frame_roots. in_app.
+        -- (* an exception leaves the script: its own stack is un-counted as well *)
+           set (sls := [f_local (s_fr s); f_args (s_fr s); sc_static (s_sc s); Some (sc_es (s_sc s))]).
+           assert (H1 : dI (flat_map slot_items sls ++ (sc_es sc' ++ below ++ Lk)) [] U d1).
+           { eapply dI_rearr; try exact H; try reflexivity; try apply meq_refl; try tauto.
+             - unfold oroots. rewrite Eo, Sh. unfold below, droots_l, slots_items, fr_roots, view, d1, sls. cbn [outer_roots flat_map d_es d_local d_args d_static slot_items app fst]. unfold frame_roots. meq_app.
+             - unfold oroots. rewrite Eo, Sh. unfold below, droots_l, slots_items, fr_roots, view, d1, sls. cbn [outer_roots flat_map d_es d_local d_args d_static slot_items app fst]. unfold frame_roots. in_app. }
+           destruct (dI_clears _ _ _ _ H1) as (U2 & H2 & S2).
+           pose proof (dclears_pair sls d1) as Pr. cbn [fold_left sls d1 d_heap d_refs] in Pr.
+           pose proof (Exc sls) as Xe. cbn [fold_left sls] in Xe.
+           cbn [negb andb]. cbv zeta.
+           match goal with |- sIk Lk (mkState _ _ _ _ (fst ?hr) (snd ?hr) _ _ _ _) => set (HR := hr) in * end.
+           assert (Eh : fst HR = d_heap (dclears sls d1)) by (rewrite <- Pr; reflexivity).
+           assert (Er : snd HR = d_refs (dclears sls d1)) by (rewrite <- Pr; reflexivity).
+           constructor; cbn [s_outer s_sc s_exc s_heap s_frames sc_prog].
+           ++ exact P'.
+           ++ exact O'.
+           ++ exact Xe.
+           ++ exists U2. eapply dI_rearr; try exact H2; try (symmetry; assumption); try apply meq_refl; try tauto.
+              ** rewrite dclears_roots. unfold below, oroots, droots_l, slots_items, fr_roots, view, d1. cbn [outer_roots flat_map d_es d_local d_args d_static slot_items app s_outer s_sc s_fr s_frames sc_es sc_static sc_shared f_local f_args]. unfold frame_roots. meq_app.
+              ** rewrite dclears_roots. unfold below, oroots, droots_l, slots_items, fr_roots, view, d1. cbn [outer_roots flat_map d_es d_local d_args d_static slot_items app s_outer s_sc s_fr s_frames sc_es sc_static sc_shared f_local f_args]. unfold frame_roots. in_app.
   - (* back to the caller in the same script *)
-    set (d1 := mkD (sc_es (s_sc s)) None None (sc_static (s_sc s)) (s_heap s) (s_refs s)).
-    assert (H1 : dI (slot_items (f_local (s_fr s)) ++ slot_items (f_args (s_fr s)) ++ frame_roots f' ++ fr_roots fs ++ Lk) [] U d1).
+    set (sls := [f_local (s_fr s); f_args (s_fr s)]).
+    assert (H1 : dI (flat_map slot_items sls ++ (sc_es (s_sc s) ++ slot_items (sc_static (s_sc s)) ++ frame_roots f' ++ fr_roots fs ++ oroots s ++ Lk)) [] U d1).
     { eapply dI_rearr; try exact H; try reflexivity; try apply meq_refl; try tauto.
-      - unfold droots_l, slots_items, fr_roots, view, d1. cbn [flat_map d_es d_local d_args d_static slot_items app]. meq_app.
-      - unfold droots_l, slots_items, fr_roots, view, d1. cbn [flat_map d_es d_local d_args d_static slot_items app]. in_app. }
-    destruct (dI_clear_slot _ _ _ _ H1) as (U2 & H2). cbn [d_heap d_refs d1] in H2.
-    set (hr1 := clear_slot (f_local (s_fr s)) (s_heap s, s_refs s)) in *.
-    destruct (dI_clear_slot _ _ _ _ H2) as (U3 & H3). cbn [d_heap d_refs set_mem] in H3.
-    assert (Q1 : (fst hr1, snd hr1) = hr1) by (destruct hr1; reflexivity). rewrite Q1 in H3.
-    set (hr2 := clear_slot (f_args (s_fr s)) hr1) in *.
+      - unfold droots_l, slots_items, fr_roots, view, d1, sls. cbn [flat_map d_es d_local d_args d_static slot_items app]. unfold frame_roots. meq_app.
+      - unfold droots_l, slots_items, fr_roots, view, d1, sls. cbn [flat_map d_es d_local d_args d_static slot_items app]. unfold frame_roots. in_app. }
+    destruct (dI_clears _ _ _ _ H1) as (U2 & H2 & S2).
+    pose proof (dclears_pair sls d1) as Pr. cbn [fold_left sls d1 d_heap d_refs] in Pr.
+    pose proof (Exc sls) as Xe. cbn [fold_left sls] in Xe.
+    match goal with |- sIk Lk (mkState _ _ _ _ (fst ?hr) (snd ?hr) _ _ _ _) => set (HR := hr) in * end.
+    assert (Eh : fst HR = d_heap (dclears sls d1)) by (rewrite <- Pr; reflexivity).
+    assert (Er : snd HR = d_refs (dclears sls d1)) by (rewrite <- Pr; reflexivity).
     constructor; cbn [s_outer s_sc s_exc s_heap s_frames sc_prog].
-    + reflexivity.
     + exact P.
-    + destruct (s_exc s); [|exact I].
-      assert (S : same_shape (s_heap s) (fst hr2)).
-      { eapply same_shape_trans; [apply (clear_slot_shape (f_local (s_fr s)) (s_heap s) (s_refs s))|]. fold hr1.
-        pose proof (clear_slot_shape (f_args (s_fr s)) (fst hr1) (snd hr1)) as S2. rewrite Q1 in S2. exact S2. }
-      eapply valid_shape; [exact S|exact X].
-    + exists U3. eapply dI_rearr; try exact H3; try reflexivity; try apply meq_refl; try tauto.
-      * unfold droots_l, slots_items, fr_roots, frame_roots, view, d1.
-        cbn [flat_map d_es d_local d_args d_static slot_items app set_mem s_fr s_sc]. meq_app.
-      * unfold droots_l, slots_items, fr_roots, frame_roots, view, d1.
-        cbn [flat_map d_es d_local d_args d_static slot_items app set_mem s_fr s_sc]. in_app.
+    + exact O.
+    + exact Xe.
+    + exists U2. eapply dI_rearr; try exact H2; try (symmetry; assumption); try apply meq_refl; try tauto.
+      * rewrite dclears_roots. unfold oroots, droots_l, slots_items, fr_roots, view, d1. cbn [flat_map d_es d_local d_args d_static slot_items app s_outer s_sc s_fr s_frames sc_es sc_static sc_shared f_local f_args]. unfold frame_roots. meq_app.
+      * rewrite dclears_roots. unfold oroots, droots_l, slots_items, fr_roots, view, d1. cbn [flat_map d_es d_local d_args d_static slot_items app s_outer s_sc s_fr s_frames sc_es sc_static sc_shared f_local f_args]. unfold frame_roots. in_app.
 Qed.
 
 (* ---------- exceptions ---------- *)
@@ -229,7 +335,7 @@ Definition data_case (Lk2 : list item) (cip : Z) (op : opcode) (p : list Z) (s :
                 | DOk d => XNext (unview s d) | DThrow e d => xopt (throw e (unview s d)) | DFault => XFault end).
 
 Lemma data_case_intro Lk Lk2 cip op p s :
-  sIk Lk s -> dres_I (fr_roots (s_frames s) ++ Lk2) (exec_data (mkEnv cip (prog_len s) (sc_sid (s_sc s))) op p (view s)) ->
+  sIk Lk s -> dres_I (fr_roots (s_frames s) ++ oroots s ++ Lk2) (exec_data (mkEnv cip (prog_len s) (sc_sid (s_sc s))) op p (view s)) ->
   data_case Lk2 cip op p s.
 Proof.
   intros K R. unfold data_case.
@@ -242,11 +348,16 @@ Proof.
 Qed.
 
 (* control instructions keep the leaked counts; a data instruction takes them from Lk to Lk2 *)
-Lemma exec_op_core Lk Lk2 cip op p s :
-  sIk Lk s -> data_case Lk2 cip op p s ->
-  xres_sIk Lk (exec_op no_sys cip op p s) \/ xres_sIk Lk2 (exec_op no_sys cip op p s).
+(* a handler for SYSCALL / CALLT that keeps the invariant, e.g. one that loads scripts (contract calls) *)
+Definition sys_ok (sys : syshandler) : Prop := forall Lk op p s s', sIk Lk s -> sys op p s = Some s' -> sIk Lk s'.
+Lemma no_sys_ok : sys_ok no_sys.
+Proof. intros Lk op p s s' _ E. discriminate. Qed.
+
+Lemma exec_op_core sys Lk Lk2 cip op p s :
+  sys_ok sys -> sIk Lk s -> data_case Lk2 cip op p s ->
+  xres_sIk Lk (exec_op sys cip op p s) \/ xres_sIk Lk2 (exec_op sys cip op p s).
 Proof.
-  intros K DD. pose proof K as [O P X V]. unfold data_case in DD.
+  intros SO K DD. pose proof K as [O P X V]. unfold data_case in DD.
   assert (JC : xres_sIk Lk (match jump_offset cip (prog_len s) p with
                       | None => XFault
                       | Some off => match jump_cond op (view s) with
@@ -265,6 +376,7 @@ Proof.
     case_if; [|exact I]. apply xopt_sI. intros s' Cl. eapply call_sI; [|exact Cl].
     apply (sI_unview s d Lk Lk); [exact K|eapply shp_pop; eauto|].
     destruct V as [U H]. eexists. eapply dI_pop; eauto.
+  - (* CALLT *) apply xopt_sI. intros s' E. eapply SO; eauto.
   - (* TRY *) unfold xres_sIk. destruct (try_params TRY p) as [cp fp]. peel. apply set_try_sI; assumption.
   - (* TRYL *) unfold xres_sIk. destruct (try_params TRYL p) as [cp fp]. peel. apply set_try_sI; assumption.
   - (* ENDTRY *) destruct (f_try (s_fr s)) as [|t ts]; [exact I|].
@@ -278,62 +390,75 @@ Proof.
     + destruct (f_try (s_fr s)) as [|t ts]; [exact I|].
       apply xopt_sI; intros s' J. eapply jump_sI; [|exact J]. apply set_try_sI; assumption.
   - (* RET *) unfold do_ret. pose proof (unload_sI Lk true s K). destruct (unload true s); simpl; auto.
+  - (* SYSCALL *) apply xopt_sI. intros s' E. eapply SO; eauto.
 Qed.
 
 (* every instruction, with possibly more leaked counts *)
-Lemma exec_op_sI cip op p s : sI s -> nonneg_bytes p -> xres_sI (exec_op no_sys cip op p s).
+Lemma exec_op_sI_sys sys cip op p s : sys_ok sys -> sI s -> nonneg_bytes p -> xres_sI (exec_op sys cip op p s).
 Proof.
-  intros [Lk K] NN.
+  intros SO [Lk K] NN.
   destruct (exec_data_IL (mkEnv cip (prog_len s) (sc_sid (s_sc s))) op p (view s) _ NN (si_d _ _ K)) as (Lk' & R).
   assert (DD : data_case (Lk' ++ Lk) cip op p s).
   { apply (data_case_intro Lk); [exact K|].
     destruct (exec_data _ op p (view s)) as [d|e d|]; cbn [dres_I] in *; [| |exact I].
     - eapply dI0_meq; [exact R|meq_app|in_app].
     - destruct R as [R Ve]. split; [|exact Ve]. eapply dI0_meq; [exact R|meq_app|in_app]. }
-  destruct (exec_op_core Lk (Lk' ++ Lk) cip op p s K DD) as [H|H]; eapply xres_sIk_sI; exact H.
+  destruct (exec_op_core sys Lk (Lk' ++ Lk) cip op p s SO K DD) as [H|H]; eapply xres_sIk_sI; exact H.
 Qed.
+Lemma exec_op_sI cip op p s : sI s -> nonneg_bytes p -> xres_sI (exec_op no_sys cip op p s).
+Proof. apply exec_op_sI_sys. exact no_sys_ok. Qed.
 
 (* every instruction that starts on an acyclic heap: no new leaked counts *)
-Lemma exec_op_sIk_acyc Lk cip op p s :
-  sIk Lk s -> acyc (s_heap s) -> nonneg_bytes p -> xres_sIk Lk (exec_op no_sys cip op p s).
+Lemma exec_op_sIk_acyc_sys sys Lk cip op p s :
+  sys_ok sys -> sIk Lk s -> acyc (s_heap s) -> nonneg_bytes p -> xres_sIk Lk (exec_op sys cip op p s).
 Proof.
-  intros K Ac NN.
+  intros SO K Ac NN.
   assert (DD : data_case Lk cip op p s).
   { apply (data_case_intro Lk); [exact K|]. apply exec_data_E; [exact NN|exact Ac|exact (si_d _ _ K)]. }
-  destruct (exec_op_core Lk Lk cip op p s K DD) as [H|H]; exact H.
+  destruct (exec_op_core sys Lk Lk cip op p s SO K DD) as [H|H]; exact H.
 Qed.
+Lemma exec_op_sIk_acyc Lk cip op p s :
+  sIk Lk s -> acyc (s_heap s) -> nonneg_bytes p -> xres_sIk Lk (exec_op no_sys cip op p s).
+Proof. apply exec_op_sIk_acyc_sys. exact no_sys_ok. Qed.
 
-Theorem step_sI s :
-  sI s -> match step s with Running s' => sI s' | Halted s' => sI s' | Faulted _ => True end.
+Theorem step_with_sI sys s :
+  sys_ok sys -> sI s -> match step_with sys s with Running s' => sI s' | Halted s' => sI s' | Faulted _ => True end.
 Proof.
-  intros K. unfold step, step_with.
+  intros SO K. unfold step_with.
   assert (Pp : forall g r, xres_sI r ->
               match post g r with Running s' => sI s' | Halted s' => sI s' | Faulted _ => True end).
   { intros g r R. destruct r; simpl; try exact I; case_if; try exact I; assumption. }
   destruct K as [Lk K].
   destruct (decode (sc_prog (s_sc s)) (f_ip (s_fr s))) as [| |op p next] eqn:D; [|exact I|].
   - apply Pp. unfold do_ret. pose proof (unload_sI Lk true s K). destruct (unload true s); simpl; auto; exists Lk; assumption.
-  - case_if; [exact I|]. apply Pp. apply exec_op_sI; [exists Lk; apply set_gas_ip_sI; assumption|].
+  - case_if; [exact I|]. apply Pp. apply exec_op_sI_sys; [exact SO|exists Lk; apply set_gas_ip_sI; assumption|].
     exact (decode_param_nonneg _ _ _ _ _ (si_prog _ s K) D).
 Qed.
+Theorem step_sI s :
+  sI s -> match step s with Running s' => sI s' | Halted s' => sI s' | Faulted _ => True end.
+Proof. apply step_with_sI. exact no_sys_ok. Qed.
 
-Theorem step_sIk_acyc Lk s :
-  sIk Lk s -> acyc (s_heap s) ->
-  match step s with Running s' => sIk Lk s' | Halted s' => sIk Lk s' | Faulted _ => True end.
+Theorem step_with_sIk_acyc sys Lk s :
+  sys_ok sys -> sIk Lk s -> acyc (s_heap s) ->
+  match step_with sys s with Running s' => sIk Lk s' | Halted s' => sIk Lk s' | Faulted _ => True end.
 Proof.
-  intros K Ac. unfold step, step_with.
+  intros SO K Ac. unfold step_with.
   assert (Pp : forall g r, xres_sIk Lk r ->
               match post g r with Running s' => sIk Lk s' | Halted s' => sIk Lk s' | Faulted _ => True end).
   { intros g r R. destruct r; simpl; try exact I; case_if; try exact I; assumption. }
   destruct (decode (sc_prog (s_sc s)) (f_ip (s_fr s))) as [| |op p next] eqn:D; [|exact I|].
   - apply Pp. unfold do_ret. pose proof (unload_sI Lk true s K). destruct (unload true s); simpl; auto.
-  - case_if; [exact I|]. apply Pp. apply exec_op_sIk_acyc; [apply set_gas_ip_sI; assumption|exact Ac|].
+  - case_if; [exact I|]. apply Pp. apply exec_op_sIk_acyc_sys; [exact SO|apply set_gas_ip_sI; assumption|exact Ac|].
     exact (decode_param_nonneg _ _ _ _ _ (si_prog _ s K) D).
 Qed.
+Theorem step_sIk_acyc Lk s :
+  sIk Lk s -> acyc (s_heap s) ->
+  match step s with Running s' => sIk Lk s' | Halted s' => sIk Lk s' | Faulted _ => True end.
+Proof. apply step_with_sIk_acyc. exact no_sys_ok. Qed.
 
 Lemma init_sIk prog sid base limit : nonneg_bytes prog -> sIk [] (init_state prog sid base limit).
 Proof.
-  intros H. constructor; cbn; [reflexivity|exact H|exact I|]. exists [].
+  intros H. constructor; cbn; [exact H|constructor|exact I|]. exists [].
   constructor; [|constructor|constructor]. constructor; [|constructor|constructor|constructor].
   constructor; [constructor|intros l; destruct l; reflexivity|reflexivity].
 Qed.
@@ -404,4 +529,75 @@ Lemma run_acyclicb_sound : forall n s, run_acyclicb n s = true -> run_acyclic n 
 Proof.
   induction n as [|n IH]; intros s; simpl; rewrite andb_true_iff; intros [A R]; (split; [apply acycb_sound; exact A|]); [exact I|].
   destruct (step s); [apply IH; exact R|apply acycb_sound; exact R|exact I].
+Qed.
+
+(* ================= several scripts on one VM (contract calls) ================= *)
+Lemma sys_load_ok scripts : Forall nonneg_bytes scripts -> sys_ok (sys_load scripts).
+Proof.
+  intros F Lk op p s s' K. unfold sys_load. destruct op; try discriminate.
+  case_if; [discriminate|]. destruct (nth_error scripts (Z.to_nat (from_le p - 1))) as [prog|] eqn:E; [|discriminate].
+  assert (NP : nonneg_bytes prog) by (rewrite Forall_forall in F; apply F; eapply nth_error_In; eauto).
+  case_if; [discriminate|]. case_if; intros Q; inv Q; apply load_script_sI; assumption.
+Qed.
+
+Theorem run_with_sI sys : sys_ok sys -> forall n s, sI s ->
+  match run_with sys n s with Running s' => sI s' | Halted s' => sI s' | Faulted _ => True end.
+Proof.
+  intros SO. induction n as [|n IH]; intros s K; simpl; [exact K|].
+  pose proof (step_with_sI sys s SO K) as S. destruct (step_with sys s) as [s1|s1|g]; [apply IH; assumption|assumption|exact I].
+Qed.
+
+(* never under-counts, with any number of scripts loaded on top of each other and exceptions unwinding across them *)
+Theorem refs_never_undercount_multi n prog scripts sid base limit s :
+  nonneg_bytes prog -> Forall nonneg_bytes scripts ->
+  (run_with (sys_load scripts) n (init_state prog sid base limit) = Running s \/
+   run_with (sys_load scripts) n (init_state prog sid base limit) = Halted s) ->
+  reach_count s <= s_refs s.
+Proof.
+  intros NN F R. pose proof (run_with_sI _ (sys_load_ok _ F) n _ (init_sI prog sid base limit NN)) as K.
+  destruct R as [R|R]; rewrite R in K; apply sI_sound; exact K.
+Qed.
+
+Fixpoint run_acyclic_with (sys : syshandler) (n : nat) (s : state) : Prop :=
+  acyc (s_heap s) /\
+  match n with
+  | O => True
+  | S n' => match step_with sys s with
+            | Running s' => run_acyclic_with sys n' s' | Halted s' => acyc (s_heap s') | Faulted _ => True end
+  end.
+
+Theorem run_with_exact sys : sys_ok sys -> forall n s, sIk [] s -> run_acyclic_with sys n s ->
+  match run_with sys n s with
+  | Running s' => reach_count s' = s_refs s'
+  | Halted s' => reach_count s' = s_refs s'
+  | Faulted _ => True
+  end.
+Proof.
+  intros SO. induction n as [|n IH]; intros s K [Ac R]; simpl; [apply sIk_exact; assumption|].
+  pose proof (step_with_sIk_acyc sys [] s SO K Ac) as S.
+  destruct (step_with sys s) as [s1|s1|g]; [apply IH; assumption|apply sIk_exact; assumption|exact I].
+Qed.
+
+(* exact while no cycle was built, likewise *)
+Theorem refs_exact_acyclic_multi n prog scripts sid base limit :
+  nonneg_bytes prog -> Forall nonneg_bytes scripts ->
+  run_acyclic_with (sys_load scripts) n (init_state prog sid base limit) ->
+  match run_with (sys_load scripts) n (init_state prog sid base limit) with
+  | Running s => reach_count s = s_refs s
+  | Halted s => reach_count s = s_refs s
+  | Faulted _ => True
+  end.
+Proof. intros NN F R. apply (run_with_exact _ (sys_load_ok _ F)); [apply init_sIk; exact NN|exact R]. Qed.
+
+Fixpoint run_acyclicb_with (sys : syshandler) (n : nat) (s : state) : bool :=
+  acycb (s_heap s) &&
+  match n with
+  | O => true
+  | S n' => match step_with sys s with
+            | Running s' => run_acyclicb_with sys n' s' | Halted s' => acycb (s_heap s') | Faulted _ => true end
+  end.
+Lemma run_acyclicb_with_sound sys : forall n s, run_acyclicb_with sys n s = true -> run_acyclic_with sys n s.
+Proof.
+  induction n as [|n IH]; intros s; simpl; rewrite andb_true_iff; intros [A R]; (split; [apply acycb_sound; exact A|]); [exact I|].
+  destruct (step_with sys s); [apply IH; exact R|apply acycb_sound; exact R|exact I].
 Qed.
